@@ -10,7 +10,7 @@ from ..terms import show_atom
 
 ID = 'C12'
 LEVEL = 'model_checking'
-RULE = ('(payloads also with ASCII punctuation replaced by the compatibility forms U+FF01..U+FF5E) ' '(every payload also at the start, the end and in the middle of a long multi-line text; three neighbouring long texts that cooperate: the first ends and the last starts with 1..3 quote characters of either kind, the middle one is code) ' 'every string of length <= 3 [quick: length 3 only in 5 of the 17 positions] over the 18 characters {a Z 0 _ space \' " LF CR # % ( ) , . : é 五} '
+RULE = ('(positions also in the second / third clause of a predicate and in a second predicate; payloads that re-open a block at every indentation after a line break) ' '(payloads also with ASCII punctuation replaced by the compatibility forms U+FF01..U+FF5E) ' '(every payload also at the start, the end and in the middle of a long multi-line text; three neighbouring long texts that cooperate: the first ends and the last starts with 1..3 quote characters of either kind, the middle one is code) ' 'every string of length <= 3 [quick: length 3 only in 5 of the 17 positions] over the 18 characters {a Z 0 _ space \' " LF CR # % ( ) , . : é 五} '
         'plus 30 payloads (Python expressions, statements after a newline, engine/API names, dunder names, each carrying '
         'a unique marker) as a quoted atom in EVERY syntactic position (clause-head name - also in a parenthesised or operator head -, body-goal name, head argument, '
         'goal argument, functor name, list element, directive argument, both sides of =), and 288 generated break-out attempts (quote of either kind + code + closers + comment tail, with and without the other kind of quote), and every hostile identifier as '
@@ -62,6 +62,12 @@ def _fullwidth(s):
 
 BREAKOUTS += [w for w in (_fullwidth(x) for x in _breakouts()[::3]) if w not in BREAKOUTS]
 BREAKOUTS += ["\uff07+atom(\uff07zq7\uff07).name()+\uff07", "a\uff07,zq7)): #", "a\uff3c", "a\ufe68\uff07,zq7", "\uff02+zq7+\uff02", "zq7\uff07\uff09\uff09: #"]
+# ... and texts that, after a line break, RE-OPEN a block at every indentation (so that whatever code follows the
+# place where the text ends up - e.g. a comment that repeats the clause - stays well-formed Python)
+for _ind in (0, 2, 4, 6):
+    for _opener in ('for _ in [1]: #', 'if zq7: #', 'while zq7: #', 'try: #'):
+        PAYLOADS.append('zq7\n' + ' ' * _ind + _opener)
+        PAYLOADS.append('zq7\ndef zq7b():\n' + ' ' * (_ind + 2) + _opener)
 INTERNAL_NAMES = ['$CUTIF', '$cutif', '$CUT', '$BREAK', '$VAR', 'cutIf1', 'doBreak', '$CUTIF_1', '$IF', '$label']
 def names_in_compiler_source():
     """every short string literal in the source of the compiler modules: if the compiler recognises
@@ -109,6 +115,7 @@ POSITIONS = [
     ('directive-argument', ':- foo(%s).'), ('unify-lhs', 'p(X) :- %s = X.'), ('unify-rhs', 'p(X) :- X \\= %s.'),
     ('paren-head', '(%s(a)).'), ('paren-head-0', '(%s).'), ('paren-head-rule', '(%s(X)) :- foo(X).'), ('paren-paren-head', '((%s(a))).'),
     ('paren-goal', 'p :- (%s(a)).'), ('paren-argument', 'p((%s)).'), ('unop-head', '- %s(a).'), ('binop-head', '%s(a) = b.'),
+    ('second-clause-argument', 'p(a).\np(%s).'), ('third-clause-goal-argument', 'p :- q(a).\np :- r(b), q(b).\np :- q(%s).'), ('second-predicate', 'p(a).\nq(b).\nq(%s) :- p(%s).'),
     ('negated-goal', 'p :- \\+ %s(a).'), ('ite', 'p :- ( %s(a) -> %s ; %s(b) ).'), ('call-argument', 'p :- call(%s, a).'),
 ]
 
